@@ -24,3 +24,21 @@ def check(module, init, inv, length, timeout=1500):
     if re.search(r"The outcome is: Error", out):
         return "refuted", out[-1500:], wall
     return "unavailable", out[-800:], wall
+
+
+def tlaps(module, timeout=600):
+    """TLAPS (tlapm) on a proof module: -> ("ok", n obligations) | ("failed", detail) | ("unavailable", detail)"""
+    wd = tempfile.mkdtemp(prefix="tlaps-", dir=lib.scratch())
+    shutil.copyfile(os.path.join(lib.SPEC, module + ".tla"), os.path.join(wd, module + ".tla"))
+    t0 = time.time()
+    try:
+        p = subprocess.run(["timeout", str(int(timeout)), "tlapm", "--threads", "8", module + ".tla"], cwd=wd,
+                           stdout=subprocess.PIPE, stderr=subprocess.STDOUT, text=True)
+    except OSError as e:
+        return "unavailable", str(e), 0.0
+    m = re.search(r"All (\d+) obligations? proved", p.stdout)
+    if m:
+        return "ok", m.group(1), time.time() - t0
+    if re.search(r"obligations? failed", p.stdout):
+        return "failed", p.stdout[-1200:], time.time() - t0
+    return "unavailable", p.stdout[-600:], time.time() - t0
